@@ -34,6 +34,10 @@ def run_impl(tp, pd, ini, t0, arrivals, use_wait=False):
         out = []
         for i, a in enumerate(arrivals):
             clock[0] = a
+            if i % 3 == 2:
+                # observers may look at the bucket at any time: reading the token count is not a request
+                for _ in range(3):
+                    tb.tokens
             if use_wait and i % 2 == 1:
                 n = len(slept)
                 asyncio.run(tb.wait())
